@@ -18,9 +18,9 @@ def tol_value(sg, tn, td, a):
     return sg * a * math.sqrt(tn / td) if sg else 0.0
 
 
-def run_ss(pu, pts, sg, tn, td, a=1, b=0):
-    """returns the 'ss' event for one supersample call on fresh vertex objects"""
-    verts = [[a * x + b, a * y + b] for x, y in pts]
+def run_ss(pu, pts, sg, tn, td, a=1, b=0, tuples=False):
+    """returns the 'ss' event for one supersample call on fresh vertex objects (lists, or tuples: a vertex is any xy pair)"""
+    verts = [((a * x + b, a * y + b) if tuples else [a * x + b, a * y + b]) for x, y in pts]
     ids = {id(v): k + 1 for k, v in enumerate(verts)}
     work = list(verts)
     try:
@@ -32,7 +32,7 @@ def run_ss(pu, pts, sg, tn, td, a=1, b=0):
     except Exception as ex:  # pylint: disable=broad-except
         status = "raised:" + type(ex).__name__
     ident = all(id(v) in ids for v in work)
-    unchanged = all(verts[k] == [a * pts[k][0] + b, a * pts[k][1] + b] for k in range(len(pts)))
+    unchanged = all(list(verts[k]) == [a * pts[k][0] + b, a * pts[k][1] + b] for k in range(len(pts)))
     kept = [ids[id(v)] for v in work] if ident else []
     return {"k": "ss", "pts": [list(p) for p in pts], "sg": sg, "tn": tn, "td": td, "kept": kept, "ident": ident and unchanged,
             "status": status}
@@ -67,7 +67,7 @@ def run(ctx):
         n += 1
         pts, (sg, tn, td), walk = st["vs"], st["tol"], st["cur"]
         for a, b, mname in MAPS:
-            e = run_ss(pu, pts, sg, tn, td, a, b)
+            e = run_ss(pu, pts, sg, tn, td, a, b, tuples=(n % 4 == 0))
             ctx.count((tuple(map(tuple, pts)), sg, tn, mname))
             if e["status"] != "ok":
                 ctx.violation("simplify.terminates_without_error", {"mode": "G", "pts": pts, "tol": [sg, tn, td], "map": [a, b]}, "returns", e["status"])
@@ -76,6 +76,8 @@ def run(ctx):
             else:
                 e["map"] = [a, b]
                 tojudge.append(e)
+                if len(ctx.drift) < 5:
+                    ctx.note_drift("supersample keeps other vertices than the transcribed walk (judged by Reduced alone)", {"pts": pts, "kept": e["kept"], "walk": walk})
         if len(pts) >= 3 and sg > 0 and (n % 3 == 0 or len(pit_evs) < 3000):
             a, b, _ = MAPS[n % len(MAPS)]
             pe = run_pit(pu, pts, sg, tn, td, a, b)
@@ -88,6 +90,10 @@ def run(ctx):
     ctx.stage("G", kind="spec->code", vectors=n, results_differing_from_walk=len(tojudge), predicate_vectors=len(pit_evs))
     ctx.exhaustive = True
     evs = tojudge + pit_evs
+    # the empty list: nothing to delete, nothing to raise about
+    e0 = run_ss(pu, [], 1, 3, 7)
+    e0["mode"] = "V"
+    evs.append(e0)
     # V: longer random lists on a 21x21 lattice
     rng = random.Random(ctx.seed * 104729 + 9)
     nv = 2500 if tier == "quick" else 60000
